@@ -101,7 +101,42 @@ def _sqrt_axioms(args, term, apps):
     yield z3.Implies(a >= 0, term * term == a)
 
 
+def _tanh_sign_axioms(args, term, apps):
+    """the subset used by the smoothed-projection tasks (range and sign only)"""
+    a = args[0]
+    yield z3.And(term > -1, term < 1)
+    yield z3.Implies(a > 0, term > 0)
+    yield z3.Implies(a < 0, term < 0)
+    yield z3.Implies(a == 0, term == 0)
+
+
 AXIOMS = {"tanh": [_tanh_axioms], "sqrt": [_sqrt_axioms]}
+AXIOMS_SMOOTHED = {"tanh": [_tanh_sign_axioms], "sqrt": [_sqrt_axioms]}
+
+
+class _NamingJnp:
+    """the shim jnp with ONE change: the arrays returned by jnp.gradient are *named* -- fresh arrays
+    G_k together with the defining fact  G_k[idx] == gradient(f)_k[idx]  instantiated at every index
+    at which G_k is read.  Nothing is abstracted away (the definition is always available); the
+    solver merely sees a short name instead of a nested if-then-else stencil inside every product."""
+
+    def __init__(self, base):
+        self._base = base
+        self.named = []
+
+    def __getattr__(self, name):
+        return getattr(self._base, name)
+
+    def gradient(self, f, *a, **k):
+        res = self._base.gradient(f, *a, **k)
+        many = isinstance(res, list)
+        out = []
+        for n, g in enumerate(res if many else [res]):
+            g = A.asarray(g)
+            named = A.fresh_array(f"grad{n}", g.shape, fact=lambda v, idx, g=g: v_eq(v, g.at_index(tuple(A._raw_index(i) for i in idx))))
+            self.named.append(named)
+            out.append(named)
+        return out if many else out[0]
 
 BETA_CLASSES = {"beta_pos": None, "beta_0": 0.0, "beta_inf": float("inf")}
 
@@ -263,14 +298,27 @@ def _smoothed_body(cls, vertical):
         rho = inp.array("rho", A.fresh_array("rho", shape))
         tr = P.SubpixelSmoothedProjection(projection_midpoint=eta).aset("_single_voxel_size", tuple(sizes), create_new_ok=True)
         c.cover("pre")
-        out = A.asarray(tr({"p": rho}, beta=beta)["p"])
+        shim_jnp = P.jnp
+        naming = _NamingJnp(shim_jnp)
+        P.jnp = naming
+        try:
+            out = A.asarray(tr({"p": rho}, beta=beta)["p"])
+        finally:
+            P.jnp = shim_jnp
         plain = A.asarray(P.tanh_projection(rho, beta, eta))
         if not prove_same_shape("smoothed/post:shape_preserved", out, rho):
             return
         idx, hyps = _generic(shape, "i")
         r = rho.at_index(idx)
-        g1 = _fd(rho, idx, plane[0], n1)
-        g2 = _fd(rho, idx, plane[1], n2)
+        out.at_index(idx)  # evaluates the code's result (and reads the named gradients) at idx
+        c.prove("smoothed/call:jnp.gradient_called_once_on_a_2d_array", len(naming.named) == 2)
+        if len(naming.named) != 2:
+            return
+        idx2 = tuple(i for k, i in enumerate(idx) if k != vertical)
+        g1 = naming.named[0].at_index(idx2)
+        g2 = naming.named[1].at_index(idx2)
+        # the names ARE the finite differences of the property statement (spec-side stencil)
+        c.prove("smoothed/lemma:named_gradient_is_the_finite_difference", A._vand(v_eq(g1, _fd(rho, idx, plane[0], n1)), v_eq(g2, _fd(rho, idx, plane[1], n2))), extra_hyps=hyps)
         gg = g1 * g1 + g2 * g2
         rad = Fraction(0.55)  # R_smoothing = 0.55 * dx (the literal of the documentation)
         no_interface = A._vor(v_eq(gg, 0), (eta - r) * (eta - r) >= rad * rad * gg)
@@ -305,11 +353,21 @@ def _smoothed_body(cls, vertical):
         R_t = next((SymNum(d) for d in divs if ctx().implied(d == to_z3_real((rad * s_um).re))), None)
         if dx_t is not None and R_t is not None and len(sqrt_apps) == 1:
             sa, sq = SymNum(sqrt_apps[0][0][0]), SymNum(sqrt_apps[0][1])
-            ne_t = next((SymNum(d) for d in divs if ctx().implied(z3.Implies(_z(gg > 0), d == sq.re))), None)
-            cut("smoothed/lemma:sqrt_argument*dx^2==gg", v_eq(sa * s_um * s_um, gg), [gg > 0])
-            cut("smoothed/lemma:sqrt^2==argument,sqrt>0", A._vand(v_eq(sq * sq, sa), sq > 0), [gg > 0])
             cz = z3.RealVal(str(rad))
-            _nra_lemma(c, "smoothed/lemma(generic):(q*s)^2==g", 4, lambda q, a, s, g: ([q * q == a, a * s * s == g], (q * s) * (q * s) == g), [sq, sa, s_um, gg])
+            # h: the squared gradient norm as the code forms it, (g1/dx)^2 + (g2/dy)^2, from the code's own dx term
+            q1, q2 = g1 / dx_t, g2 / dx_t
+            h = q1 * q1 + q2 * q2
+            _nra_lemma(
+                c,
+                "smoothed/lemma(generic):(x/d)^2+(y/d)^2_scaled_by_d^2",
+                4,
+                lambda x, y, d, s: ([s > 0, d == s], z3.And(((x / d) * (x / d) + (y / d) * (y / d)) * s * s == x * x + y * y, z3.Implies(x * x + y * y > 0, (x / d) * (x / d) + (y / d) * (y / d) > 0))),
+                [g1, g2, dx_t, s_um],
+            )
+            cut("smoothed/lemma:sqrt_argument_is_squared_gradient_norm", v_eq(sa, h), [gg > 0])
+            cut("smoothed/lemma:sqrt^2==argument,sqrt>0", A._vand(v_eq(sq * sq, sa), sq > 0), [gg > 0])
+            ne_t = next((SymNum(d) for d in divs if ctx().implied(z3.Implies(z3.And(*(hyps + [_z(gg > 0)])), d == sq.re))), None)
+            _nra_lemma(c, "smoothed/lemma(generic):(q*s)^2==g", 5, lambda q, a, hh, s, g: ([q * q == a, a == hh, hh * s * s == g], (q * s) * (q * s) == g), [sq, sa, h, s_um, gg])
             _nra_lemma(c, "smoothed/lemma(generic):|E|>=c*s*q", 4, lambda q, s, g, e: ([q > 0, s > 0, (q * s) * (q * s) == g, e * e >= cz * cz * g], z3.Or(e >= cz * s * q, -e >= cz * s * q)), [sq, s_um, gg, E])
             _nra_lemma(c, "smoothed/lemma(generic):|E/q|>=c*s", 3, lambda q, s, e: ([q > 0, s > 0, z3.Or(e >= cz * s * q, -e >= cz * s * q)], z3.Or(e / q >= cz * s, -(e / q) >= cz * s)), [sq, s_um, E])
             if ne_t is not None:
@@ -397,7 +455,7 @@ def tasks(tier, seed):
     for cls in BETA_CLASSES:
         out[f"tanh/{cls}/via_class"] = Task(_tanh_body(cls, "class"))
         for vertical in (0, 1, 2):
-            out[f"smoothed/{cls}/vertical{vertical}"] = Task(_smoothed_body(cls, vertical))
+            out[f"smoothed/{cls}/vertical{vertical}"] = Task(_smoothed_body(cls, vertical), axioms=AXIOMS_SMOOTHED)
     out["tanh/beta_pos/via_function"] = Task(_tanh_body("beta_pos", "function"))
     out["bounded/tanh"] = Task(_bounded_body(tier, "tanh"), modules=[])
     out["bounded/smoothed"] = Task(_bounded_body(tier, "smoothed"), modules=[])
